@@ -41,8 +41,20 @@ MCSpec == Init /\ [][MCNext]_vars
 MCView == <<par, labels, stack, filter, own, psnap, nops>>
 
 AllEmitsOK ==
-  \A f \in MCFilters, t \in Threads, m \in Metrics, ml \in LabelSeqs :
-     EmitOKF(f, t, m, ml, DeliverF(f, t, m, ml))
+  \A t \in Threads :
+    LET c == Cur(t)
+        V == Vis(c)
+    IN \A f \in MCFilters, m \in Metrics, ml \in LabelSeqs : EmitOKV(f, V, m, ml, DeliverC(f, c, m, ml))
+
+\* Decomposition used by the larger configurations (AllEmitsOK = PreMergeOK + EnhanceOK):
+\*  - PreMergeOK (state invariant): the stored map of every span is its visible-field map;
+\*  - EnhanceOK (no state involved): for EVERY stored map L, filter, metric and own-label sequence, what
+\*    enhance_key builds from L satisfies the property with respect to MapOf(L).
+EnhanceOK ==
+  \A f \in MCFilters, m \in Metrics, ml \in LabelSeqsAnyOrder :
+     /\ EmitOKV(f, EmptyMap, m, ml, DeliverOn(f, <<>>, FALSE, m, ml))
+     /\ \A L \in LabelSeqsAnyOrder : EmitOKV(f, MapOf(L), m, ml, DeliverOn(f, L, TRUE, m, ml))
+ASSUME EnhanceOK
 
 \* independence of other threads, stated directly: the delivery of thread t is a function of t's current
 \* span's visible fields only
